@@ -1489,8 +1489,8 @@ RCP<const Set> Complement::set_intersection(const RCP<const Set> &o) const
 
 RCP<const Set> Complement::set_complement(const RCP<const Set> &o) const
 {
-    auto newuniv = SymEngine::set_union({o, universe_});
-    return container_->set_complement(newuniv);
+    // o \ (U \ A) is not (o u U) \ A: keep it as a Complement of `o`
+    return SymEngine::set_complement_helper(rcp_from_this_cast<const Set>(), o);
 }
 
 ConditionSet::ConditionSet(const RCP<const Basic> &sym,
